@@ -201,10 +201,7 @@ def run(prog, rep, tier):
     tmpl = {}
     for nm in ('decode::ICAO', 'decode::IcaoParity'):
         for b in S.impls.get(nm, []):
-            for bb in b['blocks']:
-                t = bb['t']
-                if t and t['k'] == 'call' and t['callee'] and t['callee'].get('item') == 'new' and 'fmt::Arguments' in (t['callee'].get('name') or ''):
-                    tmpl[nm] = util.const_bytes_of_operand(prog, b, t['args'][0])
+            tmpl[nm] = util.fmt_signature(prog, b)[0]
     same = len(tmpl) == 2 and tmpl['decode::ICAO'] is not None and tmpl['decode::ICAO'] == tmpl['decode::IcaoParity']
     rep.check(same, 'R-key', 'icao24#same-template', site_of.get('decode::ICAO', '-'), 'ICAO and IcaoParity are written with different format templates: %s' % {k: v and v.hex() for k, v in tmpl.items()},
               sample={'template_hex': tmpl.get('decode::ICAO') and tmpl['decode::ICAO'].hex()})
@@ -214,15 +211,11 @@ def run(prog, rep, tier):
             and b['impl'].get('trait') == 'std::fmt::Display']
     dt = None
     for b in disp:
-        for bb in b['blocks']:
-            t = bb['t']
-            if t and t['k'] == 'call' and t['callee'] and t['callee'].get('item') == 'new' and 'fmt::Arguments' in (t['callee'].get('name') or ''):
-                dt = util.const_bytes_of_operand(prog, b, t['args'][0])
-        uses_lower_hex = any(bb['t'] and bb['t']['k'] == 'call' and bb['t']['callee'] and bb['t']['callee'].get('item') == 'new_lower_hex' for bb in b['blocks'])
+        dt, uses_lower_hex = util.fmt_signature(prog, b)
         rep.check(uses_lower_hex, 'R-key', 'icao24#lower-hex', '%s:%s' % (b['file'], b['line']), 'Display for ICAO does not format with LowerHex')
     for nm in ('decode::ICAO', 'decode::IcaoParity'):
         for b in S.impls.get(nm, []):
-            lh = any(bb['t'] and bb['t']['k'] == 'call' and bb['t']['callee'] and bb['t']['callee'].get('item') == 'new_lower_hex' for bb in b['blocks'])
+            lh = util.fmt_signature(prog, b)[1]
             rep.check(lh, 'R-key', 'icao24#lower-hex#' + nm, '%s:%s' % (b['file'], b['line']), 'Serialize for %s does not format with LowerHex' % nm)
     rep.check(dt is not None and dt == tmpl.get('decode::ICAO'), 'R-key', 'icao24#template-matches-display', site_of.get('decode::ICAO', '-'),
               'the serialised address template differs from the one Display uses')
